@@ -434,8 +434,42 @@ def _r3_tail(chk, F, rule, total_ok, fn):
     chk.floor(rule, "from_gregorian* wrappers", n, 14)
 
 
+def r5_reference_dates(chk, F):
+    """gregorian_epoch_offset(S), which maybe_from_gregorian subtracts (R3), is the reading of S's own clock at its reference epoch
+    counted from 1900-01-01T00:00:00: whole days (or J2000's half day) from the public definitions, for all nine scales."""
+    from .c10 import Reader, REF_READING_DAYS2, SCALES
+    from ..sym import St as _St
+    rule = "C08.R5"
+    R = Reader(F)
+    eng, D = R.eng, R.D
+    fn = F.find1(self_ty="TimeScale", name="gregorian_epoch_offset", trait="")
+    half_day = oracle.DAY_NS // 2
+    n = 0
+    for sc in SCALES:
+        eng.reset()
+        R.install()
+        finals = eng.run(fn, args=[R.variant(sc)], st=_St())
+        R.uninstall()
+        n += 1
+        vals = set()
+        okp = True
+        for st in finals:
+            if st.end != "return":
+                okp = False
+                continue
+            T = D.total(st.ret)
+            lo, hi = eng.fm_bounds(st, T) if T is not None else (None, None)
+            vals.add(lo if lo == hi else None)
+        want = REF_READING_DAYS2[sc] * half_day
+        ok = okp and vals == {want}
+        chk.ob(rule, "TimeScale::gregorian_epoch_offset", "[%s]==reference-date-reading-since-1900(%d half-days)" % (sc, REF_READING_DAYS2[sc]), ok,
+               "constant evaluation per scale vs oracle reference dates", detail=None if ok else {"got_ns": sorted(map(str, vals)), "want_ns": want})
+    chk.floor(rule, "scales", n, 9)
+
+
 def run(chk, F, tier):
     r1_validity(chk, F)
+    r5_reference_dates(chk, F)
     r2_tables(chk, F)
     r3_arithmetic(chk, F)
     eng, D = ctx(F)
